@@ -561,6 +561,36 @@ func (e *integEngine) checkC11Shared() {
 				c.Count("c11s_stage_outputs_checked")
 			}
 		}
+		// a chain of stages that all run the shared task: stage k sees, under <NAME>_OUTPUT, what
+		// stage k-1 (its only dependency, and the latest execution to finish) captured - not what an
+		// earlier execution of the task left behind
+		chain := len(g.Stages) >= 2
+		for i, s := range g.Stages {
+			if s.Nested != nil || (i == 0 && len(s.Deps) != 0) || (i > 0 && (len(s.Deps) != 1 || s.Deps[0] != g.Stages[i-1].Name)) {
+				chain = false
+			}
+		}
+		if !chain || len(e.w.AllGraphs()) != 1 {
+			continue
+		}
+		for i := 1; i < len(g.Stages); i++ {
+			d, s := g.Stages[i-1], g.Stages[i]
+			t := e.w.Task(e.stageTask(d))
+			if t == nil || e.stageTask(s) != t.Name || !ModelTaskFor(e.w, t, d.Name).Complete {
+				break // the chain ends where an execution did not complete
+			}
+			name := mangleOutputName(t.Name)
+			for _, r := range e.execs {
+				if e.pl.identity(r.Info.GID) != s.Name || r.Info.Owner != t.Name || r.Info.Block == "cond" {
+					continue
+				}
+				if got := r.Info.Env[name]; got != string(wrote[d.Name]) {
+					c.Violate("C11", "dependant-env", "stage %s depends on stage %s (both run task %s): its command %s saw %s=%s, the dependency's execution captured %s", s.Name, d.Name, t.Name, r.Info.Key, name, quoteShort([]byte(got)), quoteShort(wrote[d.Name]))
+					return
+				}
+				c.Count("c11s_chain_dependant_execs_checked")
+			}
+		}
 	}
 }
 
